@@ -10,6 +10,7 @@ import Driver.Conc
 import Driver.Crash
 import Driver.Fault
 import Driver.ConcW
+import Driver.OpenCheck
 open Driver
 
 def runStateless (f : String → String) : IO Unit := do
@@ -40,5 +41,6 @@ def main (args : List String) : IO UInt32 := do
   | ["conc"] => runStateless (fun l => if l.startsWith "concw" then concwLine l else concLine l); return 0
   | ["crash"] => runStateful ({} : CrashSt) crashLine; return 0
   | ["faultm"] => runStateful ({} : FaultSt) faultLine; return 0
+  | ["opencheck"] => runStateless openLine; return 0
   | ["segment"] => runStateful ({} : SegSt) segLine; return 0
   | _ => IO.eprintln "usage: driver <suite>"; return 2
